@@ -615,14 +615,14 @@ theorem any_edit_safe_witness : ¬ any_edit_safe_full := by
 /-- the statement one would like: with compression on, whatever the sender's payload, the
 receiver's sink behaves as if it had been written the payload directly -/
 def transport_transparent_full : Prop :=
-  ∀ (E : Ext) (Z : Zstd), Z.Lawful → ∀ (due : Bool) (p : Bytes), p.length < 18446744073709551616 →
+  ∀ (E : Ext) (Z : Zstd), Z.Lawful → ∀ (due : Bool) (p : Bytes), p.length < 9223372036854775808 →
     installVia E Z due p.length (sendWire Z p.length p) = install E due [p]
 
 /-- **transport_transparent_partial**: it holds whenever the wire form (8 bytes + compressed
 payload) is not longer than the payload, i.e. fits into the `req.Size` bytes that raft's
 `io.LimitReader(conn, req.Size)` lets the receiver read. -/
 theorem transport_transparent_partial (E : Ext) (Z : Zstd) (hZ : Z.Lawful) (due : Bool) (p : Bytes)
-    (hp : p.length < 18446744073709551616) (hfit : (sendWire Z p.length p).length ≤ p.length) :
+    (hp : p.length < 9223372036854775808) (hfit : (sendWire Z p.length p).length ≤ p.length) :
     installVia E Z due p.length (sendWire Z p.length p) = install E due [p] := by
   simp [installVia, transport_transparent Z hZ p hp hfit]
 
@@ -636,14 +636,14 @@ def expZ : Zstd :=
 /-- the size prefix: a larger declared size goes unnoticed (the decoder ends first, cleanly);
 a smaller one delivers a prefix, which raft's byte count then rejects -/
 theorem size_prefix_larger_unnoticed (Z : Zstd) (hZ : Z.Lawful) (p : Bytes) (n raftSize : Nat)
-    (hn : p.length < n) (hn64 : n < 18446744073709551616) (hfit : (sendWire Z n p).length ≤ raftSize) :
+    (hn : p.length < n) (hn64 : n < 9223372036854775808) (hfit : (sendWire Z n p).length ≤ raftSize) :
     recvWire Z raftSize (sendWire Z n p) = ⟨p, false⟩ := by
   have ht : (sendWire Z n p).take raftSize = sendWire Z n p := List.take_of_length_le hfit
   simp only [recvWire, ht]
   have hne : sendWire Z n p ≠ [] := by simp [sendWire, enc64, enc32]
   have hl8 : ¬ (sendWire Z n p).length < 8 := by simp [sendWire, enc64_length]
-  have hb : be64 (sendWire Z n p) = n := be64_enc64_append _ _ hn64
-  rw [if_neg hne, if_neg hl8, hb]
+  have hb : be64 (sendWire Z n p) = n := be64_enc64_append _ _ (by omega)
+  rw [if_neg hne, if_neg hl8, hb, if_neg (by omega)]
   have hd : (sendWire Z n p).drop 8 = Z.comp p := by
     simp only [sendWire]; exact List.drop_left' (enc64_length _)
   have := hZ.roundtrip p []
@@ -654,15 +654,15 @@ theorem size_prefix_larger_unnoticed (Z : Zstd) (hZ : Z.Lawful) (p : Bytes) (n r
 /-- bytes the sender compresses beyond the declared size are dropped silently by the receiver's
 `io.LimitReader(dec, n)` (they never reach the sink, and no error is raised) -/
 theorem bytes_after_declared_size_dropped (Z : Zstd) (hZ : Z.Lawful) (p extra : Bytes) (raftSize : Nat)
-    (hn64 : p.length < 18446744073709551616) (hfit : (sendWire Z p.length (p ++ extra)).length ≤ raftSize) :
+    (hn64 : p.length < 9223372036854775808) (hfit : (sendWire Z p.length (p ++ extra)).length ≤ raftSize) :
     recvWire Z raftSize (sendWire Z p.length (p ++ extra)) = ⟨p, false⟩ := by
   have ht : (sendWire Z p.length (p ++ extra)).take raftSize = sendWire Z p.length (p ++ extra) :=
     List.take_of_length_le hfit
   simp only [recvWire, ht]
   have hne : sendWire Z p.length (p ++ extra) ≠ [] := by simp [sendWire, enc64, enc32]
   have hl8 : ¬ (sendWire Z p.length (p ++ extra)).length < 8 := by simp [sendWire, enc64_length]
-  have hb : be64 (sendWire Z p.length (p ++ extra)) = p.length := be64_enc64_append _ _ hn64
-  rw [if_neg hne, if_neg hl8, hb]
+  have hb : be64 (sendWire Z p.length (p ++ extra)) = p.length := be64_enc64_append _ _ (by omega)
+  rw [if_neg hne, if_neg hl8, hb, if_neg (by omega)]
   have hd : (sendWire Z p.length (p ++ extra)).drop 8 = Z.comp (p ++ extra) := by
     simp only [sendWire]; exact List.drop_left' (enc64_length _)
   have := hZ.roundtrip (p ++ extra) []
